@@ -114,6 +114,21 @@ func (c *Ctx) genC09() {
 			}
 		}
 	}
+	// a Response whose only assertion-like children are not SAML assertions (foreign, empty or protocol namespace), or that has
+	// none at all: nothing to return, so an error — never (nil, nil)
+	for _, foreign := range [][]string{{}, {"assn-defaultns"}, {"assn-prefixed"}, {"assn-emptyns"}, {"enc-defaultns"}, {"enc-prefixed"}, {"assn-protocolns"}, {"assn-defaultns", "enc-defaultns"}} {
+		for _, rsig := range []string{"none", "idp"} {
+			for _, entry := range []string{"xml", "post"} {
+				cfg := baseCfg()
+				r := baseResp(cfg, now)
+				r.Sig = rsig
+				r.Entries = nil
+				r.Foreign = foreign
+				c.count("c09-no-saml-assertion", strings.Join(foreign, "+"))
+				c.runSP(spCase{cfg: cfg, now: now, ids: []string{"id-req1"}, url: cfg.Acs, r: r, lex: 0, entry: entry})
+			}
+		}
+	}
 	// one 3DES block whose padding byte is out of range for its 8-byte block, and a correctly encrypted assertion delivered
 	// to an SP whose own key is not RSA (or is absent): nothing to decrypt with — an error, never a panic
 	for _, rsig := range []string{"none", "idp"} {
